@@ -35,6 +35,20 @@ Sub-spaces
               and s <-> kHz; the result must be the double-precision x*f(u)/f(v) of the value the input holds
   uncertainty with an uncertainty attached (abse=0.5 or rele=2) the converted VALUE is the same as without: every
               reciprocal pair and all pairs of the 4 small dtype groups, x in {2.5, 50}, value(v) and to(v)
+  history     ONE live quantity taken through every sequence of 3 (thorough: 4) steps out of { value(t) out of place,
+              to(t) in place, rebase() } with the oracle applied after every step (value(), units() and the answer of
+              every value(t) are the original amount in the unit the quantity now reports): 69 start expressions -
+              a*b, a2/b, a*b/F for every ordered pair of different units of one dimension (km m cm | h s | kg g |
+              J erg eV | N dyn), a*b*c in every order, and km, J, km/h - each with the targets "every unit of the
+              family to the total exponent" + the start expression itself; x = 2.5 and one array
+              (added after seed C04-r6s1: an answer memoised on the object surviving rebase())
+  shared      TWO quantities of common origin (q and q[key] for 9 keys: slices, reversed / strided slice, Ellipsis,
+              integer, index list, mask; two quantities built from one caller-owned float64 ndarray with units given
+              as BaseUnits objects / one shared BaseUnits object / text; Quantity(p.value(), p.baseunits)): one of
+              them (either) converted in place u -> w, then the other must still report x in u, convert u -> v by
+              value(v) and to(v), and leave the first one at x*f(u)/f(w) in w; the ndarray keeps its numbers.  All
+              u != w, all v inside the 4 small dtype groups and s/kHz (reciprocal rule)
+              (added after seed C04-r6s3: array storage shared between quantities and rewritten by to())
   table       schema validation of the tables (see units_ref.SCHEMA); malformed rows are reported, not adopted
 
 Not demanded (left out): logarithmic and offset units (C05); numeric factors inside a target expression; x = 0 under
@@ -55,7 +69,9 @@ PROPERTY = "C04"
 LEVEL = "exploration"
 RULE = ("a case is one (source unit, target unit[, intermediate unit]) combination generated from the tables, executed "
         "for every magnitude of the stated list; combinations are distinct by construction (ordered pairs/triples of "
-        "distinct spellings or expression texts); non-trivial = everything except identity pairs u == v")
+        "distinct spellings or expression texts); non-trivial = everything except identity pairs u == v; a history "
+        "case is one (start expression, sequence of value/to/rebase steps of the stated length), a shared-origin case "
+        "one (construction, converted object, u, w, v) - all distinct by construction")
 ASSUMPTIONS = [
     "the magnitude and dimensions columns of the published tables are the specification of factor(u) and of 'same "
     "dimension'",
@@ -114,8 +130,19 @@ def _utags(*units):
     return sorted(out)
 
 
+_FEXACT = {}
+
+
 def _fexact(u):
-    """(exact Fraction | None, float) factor of a unit operand"""
+    """(exact Fraction | None, float) factor of a unit operand (pure function of the derivation; memoised)"""
+    key = tuple((t, e) for t, e in u["terms"])
+    r = _FEXACT.get(key)
+    if r is None:
+        r = _FEXACT[key] = _fexact_compute(u)
+    return r
+
+
+def _fexact_compute(u):
     ex, fl, integral = F(1), 1.0, True
     for t, e in _terms(u):
         sp = _REF.spellings[t]
@@ -538,6 +565,190 @@ def check_triple(case, direct=None):
     return None, n
 
 
+# ----------------------------------------------------------------------------------------------- histories
+def _vals(v):
+    return [float(a) for a in v] if isinstance(v, np.ndarray) and v.shape else [v]
+
+
+def _all_agree(obs, exp, rtol=RTOL):
+    vals = _vals(obs)
+    return len(vals) == len(exp) and all(_agree(o, e, ext, rtol) for o, (e, ext) in zip(vals, exp))
+
+
+def check_history(case):
+    """sub 'history': ONE live quantity Quantity(x, u) taken through a sequence of steps
+        ["value", i]  out-of-place query value(targets[i])            (string target)
+        ["to", i]     in-place conversion to(targets[i])
+        ["rebase"]    in-place merge of the units that repeat a dimension (a conversion u -> u' chosen by the library)
+    After EVERY step the quantity is re-read: value() and units() must be the amount x*f(u) expressed in the unit the
+    quantity now reports (the target of the last to(); after rebase() whatever unit of the same dimension it reports),
+    and every value(v) must be x*f(u)/f(v) - whatever was asked of, or done to, the object before."""
+    Quantity = _lib()
+    u0, targets, ops, x = case["u"], case["targets"], case["ops"], case["x"]
+    xs = x if isinstance(x, list) else [x]
+    kinds = [o[0] for o in ops]
+    tags = ["history", "array" if isinstance(x, list) else "scalar"] + \
+        (["has-rebase"] if "rebase" in kinds else []) + (["has-to"] if "to" in kinds else []) + \
+        (["has-value-query"] if "value" in kinds else []) + _utags(u0, *targets)
+    oq = outcome(lambda: Quantity(_scalar_or_array(x), u0["text"]))
+    if oq[0] == "err":
+        return failure("history", case, "quantity", dict(error=oq[1], message=oq[2]), tags=tags,
+                       behaviour="construct:raises:" + oq[1])
+    q = oq[1]
+    now = u0                 # the unit the quantity must report at this point
+    last = "fresh"           # the latest in-place step
+    d0 = _REF.terms_dims(_terms(u0))
+    full = case
+    for n, op in enumerate(ops):
+        where = dict(step=n, op=op, after=last)
+        case = dict(full, ops=ops[:n + 1])          # reported (and replayed) cut after the failing step
+        if op[0] == "value":
+            v = targets[op[1]]
+            exp = [_expected(xi, u0, v) for xi in xs]
+            o = outcome(lambda: q.value(v["text"]))
+            if o[0] == "err":
+                return failure("history", case, [e[0] for e in exp], dict(where, error=o[1], message=o[2]), tags=tags,
+                               behaviour="value-after-%s:raises:%s" % (last, o[1]))
+            if not _all_agree(o[1], exp, 2 * RTOL):
+                return failure("history", case, [e[0] for e in exp], dict(where, value=[_num(g) for g in _vals(o[1])]),
+                               tags=tags, behaviour="value-after-%s:wrong-value" % last)
+        elif op[0] == "to":
+            w = targets[op[1]]
+            o = outcome(lambda: q.to(w["text"]))
+            if o[0] == "err":
+                return failure("history", case, "converted", dict(where, error=o[1], message=o[2]), tags=tags,
+                               behaviour="to-after-%s:raises:%s" % (last, o[1]))
+            now, last = w, "to"
+        else:
+            o = outcome(q.rebase)
+            if o[0] == "err":
+                return failure("history", case, "rebased", dict(where, error=o[1], message=o[2]), tags=tags,
+                               behaviour="rebase-after-%s:raises:%s" % (last, o[1]))
+            ou = outcome(q.units)
+            rd = _REF.split_expression(ou[1]) if ou[0] == "ok" else None
+            if not rd or _REF.terms_dims(list(rd.items())) != d0:
+                return failure("history", case, "a unit of the dimension of " + u0["text"], dict(where, units=ou[1:]),
+                               tags=tags, behaviour="rebase-after-%s:units-of-other-dimension" % last)
+            now, last = U(ou[1], list(rd.items())), "rebase"
+        # the quantity as it reports itself now
+        st = outcome(lambda: (q.value(), q.units()))
+        if st[0] == "err":
+            return failure("history", case, "readable quantity", dict(where, error=st[1], message=st[2]), tags=tags,
+                           behaviour="%s-after-%s:unreadable:%s" % (op[0], where["after"], st[1]))
+        exp = [_expected(xi, u0, now) for xi in xs]
+        if not _all_agree(st[1][0], exp, 2 * RTOL):
+            return failure("history", case, dict(value=[e[0] for e in exp], units=now["text"]),
+                           dict(where, value=[_num(g) for g in _vals(st[1][0])], units=st[1][1]), tags=tags,
+                           behaviour="%s-after-%s:%s" % (op[0], where["after"], "quantity-changed-by-query"
+                                                         if op[0] == "value" else "wrong-value"))
+        if not _means(st[1][1], now):
+            return failure("history", case, now["text"], dict(where, units=st[1][1]), tags=tags,
+                           behaviour="%s-after-%s:%s" % (op[0], where["after"], "units-changed-by-query"
+                                                         if op[0] == "value" else "units-not-target"))
+    return None
+
+
+def _key(k):
+    kind = k[0]
+    if kind == "slice":
+        return slice(k[1], k[2], k[3])
+    if kind == "int":
+        return k[1]
+    if kind == "index":
+        return list(k[1])
+    if kind == "mask":
+        return np.array(k[1], dtype=bool)
+    return Ellipsis
+
+
+def _is_rec(a, b):
+    return _REF.terms_dims(_terms(a)) != _REF.terms_dims(_terms(b))
+
+
+def check_shared(case):
+    """sub 'shared': TWO quantities holding the same numbers in the unit u (one is a slice / element selection of the
+    other, or both were built from one caller-owned ndarray, or one was rebuilt from value() and the units object of
+    the other).  The 'actor' is converted in place to w; the other one (the 'witness') was never converted: it must
+    still report x in u, value(v) must be x*f(u)/f(v), its own to(v) must give that too - and must in turn leave the
+    actor at x*f(u)/f(w) in w.  The caller's ndarray keeps its numbers."""
+    Quantity = _lib()
+    from scinumtools.units import BaseUnits
+    u, w, v, x, build, actor = case["u"], case["w"], case["v"], case["x"], case["build"], case["actor"]
+    tags = ["shared-origin", "build:" + build[0] + ("-" + build[1][0] if build[0] == "select" else ""),
+            "actor:" + ("first" if actor == 0 else "second")] + _utags(u, w, v)
+    arr = keep = None
+
+    def make():
+        nonlocal arr, keep
+        if build[0] == "select":             # first = whole array quantity, second = first[key]
+            a = Quantity(list(x), u["text"])
+            return [a, a[_key(build[1])]], [list(x), _vals(np.array(x, dtype=float)[_key(build[1])])]
+        arr = np.array(x, dtype=float)
+        keep = arr.copy()
+        if build[0] == "array-baseunits":    # one caller-owned ndarray, units as two BaseUnits objects
+            return [Quantity(arr, BaseUnits(u["text"])), Quantity(arr, BaseUnits(u["text"]))], [list(x), list(x)]
+        if build[0] == "array-one-baseunits":  # ... and as one BaseUnits object handed to both
+            bu = BaseUnits(u["text"])
+            return [Quantity(arr, bu), Quantity(arr, bu)], [list(x), list(x)]
+        if build[0] == "array-string":       # ... units as text
+            return [Quantity(arr, u["text"]), Quantity(arr, u["text"])], [list(x), list(x)]
+        if build[0] == "rebuilt":            # second = Quantity(first.value(), first.baseunits)
+            a = Quantity(arr, u["text"])
+            return [a, Quantity(a.value(), a.baseunits)], [list(x), list(x)]
+        raise HarnessError("unknown build %r" % (build,))
+    o = outcome(make)
+    if o[0] == "err":
+        return failure("shared", case, "two quantities", dict(error=o[1], message=o[2]), tags=tags,
+                       behaviour="construct:raises:" + o[1])
+    (qs, held) = o[1]
+    A, W = qs[actor], qs[1 - actor]
+    xa, xw = held[actor], held[1 - actor]
+
+    def read(q, xs_, unit, src, what, rec=False):
+        st = outcome(lambda: (q.value(), q.units()))
+        if st[0] == "err":
+            return failure("shared", case, "readable quantity", dict(error=st[1], message=st[2]), tags=tags,
+                           behaviour=what + ":unreadable:" + st[1])
+        exp = [_expected(xi, src, unit, rec) for xi in xs_]
+        if not _all_agree(st[1][0], exp):
+            return failure("shared", case, dict(value=[e[0] for e in exp], units=unit["text"]),
+                           dict(value=[_num(g) for g in _vals(st[1][0])], units=st[1][1]), tags=tags,
+                           behaviour=what + ":wrong-value")
+        if not _means(st[1][1], unit):
+            return failure("shared", case, unit["text"], st[1][1], tags=tags, behaviour=what + ":wrong-units")
+        return None
+    f = read(A, xa, u, u, "actor-before") or read(W, xw, u, u, "witness-before")
+    if f:
+        return f
+    o = outcome(lambda: A.to(w["text"]))
+    if o[0] == "err":
+        return failure("shared", case, "converted", dict(error=o[1], message=o[2]), tags=tags,
+                       behaviour="actor-to:raises:" + o[1])
+    f = read(A, xa, w, u, "actor-to", _is_rec(u, w)) or read(W, xw, u, u, "witness-after-actor-to")
+    if f:
+        return f
+    rv = _is_rec(u, v)
+    exp = [_expected(xi, u, v, rv) for xi in xw]
+    o = outcome(lambda: W.value(v["text"]))
+    if o[0] == "err":
+        return failure("shared", case, [e[0] for e in exp], dict(error=o[1], message=o[2]), tags=tags,
+                       behaviour="witness-value:raises:" + o[1])
+    if not _all_agree(o[1], exp):
+        return failure("shared", case, [e[0] for e in exp], [_num(g) for g in _vals(o[1])], tags=tags,
+                       behaviour="witness-value:wrong-value")
+    o = outcome(lambda: W.to(v["text"]))
+    if o[0] == "err":
+        return failure("shared", case, [e[0] for e in exp], dict(error=o[1], message=o[2]), tags=tags,
+                       behaviour="witness-to:raises:" + o[1])
+    f = read(W, xw, v, u, "witness-to", rv) or read(A, xa, w, u, "actor-after-witness-to", _is_rec(u, w))
+    if f:
+        return f
+    if arr is not None and not (arr.dtype == keep.dtype and np.array_equal(arr, keep)):
+        return failure("shared", case, [float(k) for k in keep], [float(k) for k in arr], tags=tags,
+                       behaviour="input-array-changed")
+    return None
+
+
 # ----------------------------------------------------------------------------------------------- alphabets
 _LEAVES = [("m", 1), ("km", 1), ("cm", 1), ("m", 2), ("s", 1), ("h", 1), ("s", 2), ("kg", 1), ("g", 1),
            ("J", 1), ("erg", 1), ("eV", 1), ("N", 1), ("dyn", 1), ("W", 1), ("Pa", 1), ("Hz", 1)]
@@ -703,6 +914,91 @@ def _refusal_pairs():
     return out
 
 
+# histories on one live quantity: start units that repeat a dimension in different units (rebase() really converts)
+HIST_FAMILIES = [(["km", "m", "cm"], "s"), (["h", "s"], "kg"), (["kg", "g"], "s"), (["J", "erg", "eV"], "s"),
+                 (["N", "dyn"], "s")]         # (units of one dimension, a unit of a foreign dimension)
+HIST_PLAIN = [("km", [("km", 1)], ["km", "m", "cm"]), ("J", [("J", 1)], ["J", "erg", "eV"]),
+              ("km/h", [("km", 1), ("h", -1)], None)]          # rebase() is the identity here
+HIST_XS = [2.5, [4.0, 1.0, -2.5]]
+HIST_DEPTH = dict(quick=3, thorough=4)
+_HIST = None
+
+
+def _hist_starts():
+    """[(start operand, [target operands])]: a*b, a2/b, a*b/F for every ordered pair a != b of a family, a*b*c for
+    every order of a three-unit family, and three plain units; targets = every family member to the total exponent
+    (with the foreign factor kept) + the start expression itself"""
+    global _HIST
+    if _HIST is not None:
+        return _HIST
+    out = []
+    et = units_ref.exp_text
+
+    def entry(text, terms, fam, e, foreign=None):
+        tg = []
+        for m in fam:
+            tt = [(m, e)] + ([(foreign, -1)] if foreign else [])
+            tg.append(U(m + et(e) + ("/" + foreign if foreign else ""), tt))
+        start = U(text, terms)
+        out.append((start, tg + [start]))
+    for fam, foreign in HIST_FAMILIES:
+        for a in fam:
+            for b in fam:
+                if a == b:
+                    continue
+                entry(a + "*" + b, [(a, 1), (b, 1)], fam, 2)
+                entry(a + "2/" + b, [(a, 2), (b, -1)], fam, 1)
+                entry(a + "*" + b + "/" + foreign, [(a, 1), (b, 1), (foreign, -1)], fam, 2, foreign)
+        if len(fam) == 3:
+            for a in fam:
+                for b in fam:
+                    for c in fam:
+                        if len({a, b, c}) == 3:
+                            entry(a + "*" + b + "*" + c, [(a, 1), (b, 1), (c, 1)], fam, 3)
+    for text, terms, fam in HIST_PLAIN:
+        if fam is None:
+            start = U(text, terms)
+            out.append((start, [U("m/s", [("m", 1), ("s", -1)]), U("cm/h", [("cm", 1), ("h", -1)]), start]))
+        else:
+            out.append((U(text, terms), [U(m) for m in fam]))
+    _HIST = out
+    return out
+
+
+def _hist_ops(ntargets):
+    return [["value", i] for i in range(ntargets)] + [["to", i] for i in range(ntargets)] + [["rebase"]]
+
+
+def _hist_sequences(ntargets, depth):
+    """every sequence of exactly depth steps (the oracle is applied after every step, so every shorter history is
+    checked as a prefix; a failure is reported with the history cut after the failing step)"""
+    import itertools
+    ops = _hist_ops(ntargets)
+    for h in itertools.product(ops, repeat=depth):
+        yield list(h)
+
+
+# two quantities of common origin
+SHARED_X = [4.0, 1.0, -2.5, 0.5]
+SHARED_BUILDS = [["select", ["slice", 1, 3, None]], ["select", ["slice", None, None, None]],
+                 ["select", ["slice", None, 1, None]], ["select", ["slice", None, None, 2]],
+                 ["select", ["slice", None, None, -1]], ["select", ["ellipsis"]], ["select", ["int", 1]],
+                 ["select", ["index", [0, 2]]], ["select", ["mask", [True, False, True, True]]],
+                 ["array-baseunits"], ["array-one-baseunits"], ["array-string"], ["rebuilt"]]
+
+
+def _shared_triples():
+    """[(u, w, v)]: u != w inside a small group (actor u -> w), v every member of the group (witness u -> v);
+    s/kHz: the reciprocal rule"""
+    out = []
+    for g in DTYPE_GROUPS + [list(DTYPE_RECIPROCAL[0])]:
+        for a in g:
+            for b in g:
+                if a != b:
+                    out += [(U(a), U(b), U(c)) for c in g]
+    return out
+
+
 # ----------------------------------------------------------------------------------------------- engine
 def _table_failure(case, exp, obs):
     return failure("table", case, exp, obs, tags=["table:" + case["table"], "column:" + case["column"]],
@@ -711,7 +1007,8 @@ def _table_failure(case, exp, obs):
 
 def _fixed_alphabet_missing():
     need = [a for a, _ in _LEAVES] + [g[0] for g in GBU] + [t for g in GBU for t, _ in g[1]] \
-        + [t for _, terms in _RAD_ONLY for t, _ in terms] + [a for p in DTYPE_GROUPS for a in p]
+        + [t for _, terms in _RAD_ONLY for t, _ in terms] + [a for p in DTYPE_GROUPS for a in p] \
+        + [a for fam, fo in HIST_FAMILIES for a in fam + [fo]] + [a for p in DTYPE_RECIPROCAL for a in p]
     return sorted(set(n for n in need if n not in _REF.spellings))
 
 
@@ -751,7 +1048,13 @@ def plan(tier, seed):
         shards.append(("uncertainty", k, 8))
     for gi in range(len(DTYPE_GROUPS) + 1):
         shards.append(("dtype", gi))
-    order = {"table": 0, "dtype": 0, "nounit": 0, "uncertainty": 0, "refuse": 0, "number-to-rad": 0, "gbu": 0, "power": 0, "reciprocal": 1, "pair": 2, "compound": 3,
+    nh = len(_hist_starts())
+    hstep = 4 if tier == "quick" else 1
+    for lo in range(0, nh, hstep):
+        shards.append(("history", lo, min(lo + hstep, nh), HIST_DEPTH[tier]))
+    for k in range(4):
+        shards.append(("shared", k, 4))
+    order = {"history": -1 if tier != "quick" else 0, "shared": 0, "table": 0, "dtype": 0, "nounit": 0, "uncertainty": 0, "refuse": 0, "number-to-rad": 0, "gbu": 0, "power": 0, "reciprocal": 1, "pair": 2, "compound": 3,
              "triple": 4}
     shards.sort(key=lambda s: order[s[0]])
     return shards
@@ -913,6 +1216,44 @@ def run_shard(desc):
                         sh.fail(r)
         if gi == 0:
             sh.sample(dict(sub="dtype", u="Tm", v="mm", form="array:float32", xs=DTYPE_FORMS["array:float32"][1]), limit=1)
+    elif kind == "history":
+        _, lo, hi, depth = desc
+        for start, targets in _hist_starts()[lo:hi]:
+            for ops in _hist_sequences(len(targets), depth):
+                bad = None
+                for x in HIST_XS:
+                    r = check_history(dict(sub="history", u=start, targets=targets, ops=ops, x=x))
+                    sh.evaluations += 1
+                    if r is not None and bad is None:
+                        bad = r
+                sh.nontrivial += 1
+                sh.count("history:len%d" % len(ops))
+                kinds = set(o[0] for o in ops)
+                if "rebase" in kinds and "value" in kinds:
+                    sh.count("history:query+rebase")
+                if "to" in kinds and "value" in kinds:
+                    sh.count("history:query+to")
+                if bad is not None:
+                    sh.fail(bad)
+            _guard(sh)
+        sh.max_depth = max(sh.max_depth, depth)
+        if lo == 0:
+            st, tg = _hist_starts()[0]
+            sh.sample(dict(sub="history", u=st["text"], targets=[t["text"] for t in tg],
+                           ops=[["value", 2], ["rebase"], ["value", 2]], xs=HIST_XS), limit=1)
+    elif kind == "shared":
+        for n, (u, w, v) in enumerate(_shared_triples()[desc[1]::desc[2]]):
+            for build in SHARED_BUILDS:
+                for actor in (0, 1):
+                    r = check_shared(dict(sub="shared", u=u, w=w, v=v, x=SHARED_X, build=build, actor=actor))
+                    sh.evaluations += 1
+                    sh.nontrivial += 1
+                    sh.count("shared:" + build[0])
+                    if r is not None:
+                        sh.fail(r)
+            if n == 0 and desc[1] == 0:
+                sh.sample(dict(sub="shared", u=u["text"], w=w["text"], v=v["text"], build=SHARED_BUILDS[0], actor=1,
+                               x=SHARED_X), limit=1)
     elif kind == "number-to-rad":
         for x in XS + [ARRAY]:
             r = check_number_to_rad(dict(sub="number-to-rad", x=x))
@@ -986,6 +1327,10 @@ def replay(rec):
         r = check_dtype(c)
     elif sub == "refuse":
         r = check_refuse(c)
+    elif sub == "history":
+        r = check_history(c)
+    elif sub == "shared":
+        r = check_shared(c)
     elif sub == "triple":
         r, _ = check_triple(c, None)
     else:
@@ -1004,7 +1349,10 @@ def finish(total, tier, seed):
             "reciprocal:converted": 1000, "refuse": 1000, "refuse:differs-only-in-rad": 4, "refuse:bare-number": 20,
             "number-to-rad": 8, "power:converted": 500, "refuse:unit-power": 500,
             "refuse:no-unit-target": 50, "nounit:converted": 4, "dtype:float32": 50, "dtype:float16": 50,
-            "dtype:int64": 50, "dtype:list": 40, "uncertainty:reciprocal": 1000, "uncertainty:linear": 40}
+            "dtype:int64": 50, "dtype:list": 40, "uncertainty:reciprocal": 1000, "uncertainty:linear": 40,
+            "history:len%d" % HIST_DEPTH.get(tier, 3): 40000, "history:query+rebase": 9000, "history:query+to": 25000,
+            "shared:select": 2000, "shared:array-baseunits": 200, "shared:array-one-baseunits": 200,
+            "shared:array-string": 200, "shared:rebuilt": 200}
     for k, n in need.items():
         if h.get(k, 0) < n:
             raise HarnessError("vacuous sub-space %s: %r" % (k, h))
@@ -1021,6 +1369,14 @@ def finish(total, tier, seed):
         powers=[units_ref.exp_text(e) for e in POWERS], input_forms=sorted(DTYPE_FORMS),
         dtype_groups=DTYPE_GROUPS + [list(p) for p in DTYPE_RECIPROCAL], table_rows_validated=_REF.rows_validated,
         magnitudes=XS, array=ARRAY, triple_magnitudes=TRIPLE_XS, relative_tolerance=RTOL, caps_hit=[],
+        history_start_expressions=len(_hist_starts()), history_depth=HIST_DEPTH.get(tier, 3),
+        history_steps="value(t) | to(t) | rebase(), t in family units to the total exponent + the start expression",
+        histories=h.get("history:len%d" % HIST_DEPTH.get(tier, 3), 0),
+        histories_query_and_rebase=h.get("history:query+rebase", 0), histories_query_and_to=h.get("history:query+to", 0),
+        history_magnitudes=HIST_XS,
+        shared_origin_constructions=[b[0] + (":" + b[1][0] if len(b) > 1 else "") for b in SHARED_BUILDS],
+        shared_origin_unit_triples=len(_shared_triples()),
+        shared_origin_cases=sum(v for k, v in h.items() if k.startswith("shared:")),
     )
 
 
@@ -1035,11 +1391,20 @@ MANIFEST = dict(
          "number -> rad; 15 467 ordered pairs of 126 representatives of different dimension (incl. pairs that differ only "
          "in the rad exponent) must be refused by value() and to() (string, BaseUnits and Quantity targets, incl. the empty "
          "BaseUnits() target) and leave value and units untouched; dimensionless spellings -> empty BaseUnits() target; "
-         "44 pairs x 10 input forms (float64/32/16, int64/32 arrays, list, numpy scalars) x edge magnitudes; table "
+         "44 pairs x 10 input forms (float64/32/16, int64/32 arrays, list, numpy scalars) x edge magnitudes; "
+         "histories on ONE live quantity: every sequence of 3 (thorough: 4) steps out of value(t) / in-place to(t) / "
+         "rebase() from 69 start expressions that repeat a dimension in different units (a*b, a2/b, a*b/F, a*b*c over "
+         "km m cm | h s | kg g | J erg eV | N dyn, plus km, J, km/h), 42 195 histories (thorough 365 349) x scalar and "
+         "array, value, units and every value(t) compared after every step; two quantities of common origin (9 "
+         "slicings/selections of an array quantity, one caller-owned ndarray given to two quantities, a quantity "
+         "rebuilt from value() and the units object of another): either one converted in place, the other must still "
+         "report and convert its own x in u (3 380 cases); table "
          "schema validated. Oracle: "
          "x*f(u)/f(v) in exact rational arithmetic over the published tables, rel 1e-12.",
     note="Float magnitudes are covered by 7 boundary representatives only; compound expressions have <= 3 terms over "
-         "17 leaves; refusal uses <= 2 representatives per dimension group. Logarithmic and offset units belong to C05. "
+         "17 leaves; refusal uses <= 2 representatives per dimension group; histories are bounded by the stated depth and "
+         "the 69 start expressions, shared-origin cases by one in-place conversion per object over 5 small unit groups "
+         "(further operand-immutability checks: C07). Logarithmic and offset units belong to C05. "
          "Trusted: the magnitude/dimension columns of the tables, Python Fraction arithmetic.",
-    technique="exhaustive pair/triple enumeration over the unit tables, Fraction reference model, refusal + state-unchanged invariant",
+    technique="exhaustive pair/triple enumeration over the unit tables, bounded call histories on one object, Fraction reference model, refusal + state-unchanged invariant",
 )
